@@ -142,6 +142,32 @@ EXTRA5 = {
 for k, v in EXTRA5.items():
     CLAIMS[k] = (CLAIMS[k][0] + v, CLAIMS[k][1])
 
+# rules added after the sixth round of independent breaking changes and the follow-up of the recorded observations
+EXTRA6 = {
+ "C01": " Merging configured slot ranges is a union; a command that cannot be routed poisons its batch (shared with C19); the command table is folded over the whole alphabet (shared with C10).",
+ "C02": " Inside a source transaction only EXEC requests a flush (the transition function folded over its whole domain, shared with C09); a granted continuation keeps the target's position.",
+ "C03": " The full sync waits for every goroutine that replays a part of the snapshot; the last chunk of a split value is known as split (shared with C20).",
+ "C04": " A plain cluster batch scans its replies for error replies before it reports success.",
+ "C05": " Every log segment starts with a fresh checksum; after a restart the newest-segment marker is the last element of the sorted list.",
+ "C06": " DropStartPoint removes the old id's records from every database before the marker (W30); the output is told to drop its position only on a full resynchronisation; a failed look-up of the id that holds the checkpoint ends the start-up maintenance; the position offered is the greatest stored offset (shared with C02).",
+ "C07": " Every flush stores the one running position (the end offset of the last item taken, pings included); the (re)connection decisions of syncMeta (shared with C06).",
+ "C08": " Every data set built from a directory goes through the gap truncation; a snapshot is 'being written' only under its temporary name.",
+ "C09": " The key filter rejects a command only for its keys: MULTI and EXEC always pass (shared with C10).",
+ "C10": " Command names are folded to lower case over 'A'..'Z'; merging slot ranges is a union.",
+ "C11": " The transaction batcher takes a command's slot from its resolved keys (shared with C18).",
+ "C12": " An array is read to its announced length.",
+ "C13": " The tool's own prefixes are black-listed whatever the operator configured (shared with C10); a mirrored transaction is dispatched again only after a resolved redirect (shared with C19).",
+ "C14": " A completed full sync leaves a baseline frontier after removing the replaced position's journal (W28); a root checkpoint that overrides the frontier removes the state it replaces (W29); the frontier is rebuilt from the stored snapshot only; a mode migration repoints the index before it retires the old entry (shared with C17).",
+ "C15": " The lease period is written by the constructor only; a renewal attempt reports nil only when the election answered nil.",
+ "C16": " The leader's id is adopted only for a copy known to be its prefix (W31); the handshake frame answers only a follower that named no id; the leader's cache stays contiguous under collection (shared with C05).",
+ "C17": " The (re)connection decisions of syncMeta: the position is dropped only on a full resynchronisation (shared with C06).",
+ "C18": " A refusal is published before the unit channel is closed (W27); the slot table gives every slot of a reported range an owner; a transaction the filters emptied is skipped, not refused (shared with C13).",
+ "C19": " A refused MOVED or ASK becomes 'typology changed', also in the pipelined receiver; known finding W32: plain batches route a command by the table alone while redirections are followed at receive time (R19.19, reported as KNOWN-FINDING).",
+ "C20": " The key-exists policy of every output configuration is copied from the option of that name; the snapshot worker stops on the unit builder's error before it looks at 'skip'.",
+}
+for k, v in EXTRA6.items():
+    CLAIMS[k] = (CLAIMS[k][0] + v, CLAIMS[k][1])
+
 NOT_YET = "check not built yet in this revision (planned, see DESIGN.md section 3)"
 
 def main():
